@@ -519,12 +519,30 @@ def _talker_tokens():
     return out
 
 
+# a well-formed frame without its first byte (kind "headless"): if the reader ever re-uses a byte it has already
+# consumed (a held-over preamble byte), this tail is completed into a frame that is not in the stream.  None of them
+# contains a frame-start byte.  Used only by the resync ring of C07.
+HEADLESS_TOKENS = {
+    "hU": (0, "headless", _UACK[1:]),
+    "hN": (0, "headless", _NMEA1[1:]),
+    "hR": (0, "headless", ref.rtcm_frame(bytes([0x3E, 0xD0]) + bytes(3))[1:]),
+}
+assert not any(set(v[2]) & {0xB5, 0x24, 0xD3} for v in HEADLESS_TOKENS.values())
+RESYNC_ALPHABET = ["fb5", "f24", "fd3", "Ubad", "Nbad", "Rbad", "Uack", "N1", "R1", "hU", "hN", "hR"]
+# UBX frames whose 16-bit length field has its top bit set (a signed read of the field turns them negative)
+HUGE_TOKENS = {
+    "U32767": (ref.UBX, "frame", ref.frame(0x99, 0x03, bytes(32767))),
+    "U32768": (ref.UBX, "frame", ref.frame(0x99, 0x03, bytes(32768))),
+    "U65535": (ref.UBX, "frame", ref.frame(0x99, 0x03, bytes(i % 251 for i in range(65535)))),
+}
 TALKER_TOKENS = _talker_tokens()
+TOKENS.update(HEADLESS_TOKENS)
 TOKENS.update(LONG_TOKENS)
 TOKENS.update(ERR_TOKENS)
 TOKENS.update(SWALLOW_TOKENS)
 TOKENS.update(TALKER_TOKENS)
 LONG_NAMES = list(LONG_TOKENS) + list(ERR_TOKENS) + list(TALKER_TOKENS)
+HUGE_NAMES = list(HUGE_TOKENS)  # kept out of LONG_NAMES: rings that cut or re-chunk at every byte would be quadratic in 64 KiB
 FRAME_TOKENS = [k for k, v in TOKENS.items() if v[1] == "frame" and k not in LONG_NAMES]
 NOISE_TOKENS = [k for k, v in TOKENS.items() if v[1] == "noise"]
 FRAG_TOKENS = [k for k, v in TOKENS.items() if v[1] == "frag"]
@@ -600,13 +618,19 @@ NOISE_RUNS = {
 TOKENS.update(NOISE_RUNS)
 
 
-def long_seqs(neighbours):
+def long_seqs(neighbours, huge=False):
     """(a?, L, b?) for every boundary-length token / long noise run L and every neighbour a, b (None = absent)."""
     nb = [None] + list(neighbours)
     for L in LONG_NAMES + list(NOISE_RUNS):
         for a in nb:
             for b in nb:
                 yield tuple(x for x in (a, L, b) if x is not None)
+    if huge:  # 64 KiB frames: a small fixed set of neighbourhoods (each execution costs ~0.1 s)
+        for L in HUGE_NAMES:
+            yield (L,)
+            yield (L, "N1")
+            yield ("Uack", L, "N1", "Uack")
+            yield ("Rbad", L, "R1")
 
 
 LONG_NEIGHBOURS = ["Uack", "Ubad", "N1", "R1", "Rbad", "n00", "nabc"]
